@@ -56,7 +56,7 @@ def spellings():
 
 
 SPELL = spellings()
-POS = ['operand', 'sum', 'sum_twice', 'countifs', 'index', 'plus_other_sheet', 'twin_sheets']
+POS = ['operand', 'sum', 'sum_twice', 'countifs', 'index', 'plus_other_sheet', 'twin_sheets', 'after_quoted_cell']
 
 
 def _job(fsheet, timeout, kfs):
@@ -106,6 +106,11 @@ def _job(fsheet, timeout, kfs):
             core = txt.split('!')[-1]
             osheet = 2 if (fsheet if s is None else s) != 2 else 1
             formula = f"=SUM({txt})+SUM('{TITLES[osheet]}'!{core})"
+        elif pos == 'after_quoted_cell':
+            if s == 'unknown':
+                return None
+            # the reference follows a quoted single-cell reference (and an unquoted one) in the same formula
+            formula = f"='Data'!C3+SUM({txt})+S!B1"
         elif pos == 'twin_sheets':
             if s == 'unknown':
                 return None
@@ -136,6 +141,8 @@ def _job(fsheet, timeout, kfs):
             exp = sum(val(*x) for x in flat)
         elif pos == 'sum_twice':
             exp = 2 * sum(val(*x) for x in flat)
+        elif pos == 'after_quoted_cell':
+            exp = val(2, 2, 2) + sum(val(*x) for x in flat) + val(0, 1, 0)
         elif pos == 'plus_other_sheet':
             exp = sum(val(*x) for x in flat) + sum(val(osheet, c, r) for (_, c, r) in flat)
         elif pos == 'countifs':
@@ -316,7 +323,7 @@ def run(report, tier, seed):
             report.sample(dict(job=cname, texts=r['paths'], secs=r['secs']))
     report.encoded('Excel.get_matrix', 'Excel.get_range', 'Excel._fill_cell', 'MatrixOfCellIdentifiersTokenTranslator.translate', 'CellIdentifierRangeTokenTranslator.translate',
                    'CellTranslator.translate', 'handle_cell')
-    report.bound(f'(a) {len(SPELL)} spellings x 4 formula sheets x 7 positions (INDEX with every (row, column) of the area; the same area text on two sheets in one formula; the identical formula on two sheets of one workbook); 4x4 blocks of distinct powers of two on 4 sheets (one titled "1"); '
+    report.bound(f'(a) {len(SPELL)} spellings x 4 formula sheets x 8 positions (INDEX with every (row, column) of the area; the same area text on two sheets in one formula; the identical formula on two sheets of one workbook; after a quoted single-cell reference); 4x4 blocks of distinct powers of two on 4 sheets (one titled "1"); '
                  '(b) reference texts assembled from 5 title spellings x all $ combinations x 9 boundary columns (A..ZZZ) x 6 boundary rows x 14 trailing characters; all 18 278 column names concretely')
     report.assume('(a) the solver enumerates the finite case space; each case runs natively on a real .xlsx',
                   '(b) E1 (symbolic regex subject) does not finish these harnesses (measured: thousands of paths, one per character value); the solver enumerates a '
